@@ -15,6 +15,7 @@ from .condprops import cond_decl, prior_decl, make_prior
 from .c02 import _inv_of, _lndet_of
 
 PROP = "C04"
+EXTRA_DRAWS = 0      # the thorough tier of this property is long already: no additional draws of the generic rationals
 
 BOUNDS = {
     "quick": "one step of: multiply / hadamard by every factor kind (update_full on/off), product, slice, update, normalize, get_density, get_marginal, condition_on, cond(x), update_Sigma, and the three affine transformations of every conditional kind; pre-state caches absent / supplied / populated by a query; D=2, R<=2, (Dx,Dy) in {(1,1),(2,1),(1,2)}; fully symbolic",
